@@ -212,8 +212,13 @@ private:
         // Alert only about unique errors.
         // This makes sure the errors of a single check() call are unique.
         // TODO: get rid of this? This is forwarded to another ErrorLogger which is also doing this
-        if (!mSettings.emitDuplicates && !mErrorList.emplace(std::move(errmsg)).second)
+        if (!mSettings.emitDuplicates && !mErrorList.emplace(std::move(errmsg)).second) {
+            // a worker (thread/process executor) drops this duplicate here, so Executor::hasToLog() never
+            // sees it: let the global suppressions see it as the single executor's logger does
+            if (!mUseGlobalSuppressions && !suppressed)
+                (void)mSuppressions.nomsg.isSuppressed(errorMessage, true);
             return;
+        }
 
         if (mAnalyzerInformation)
             mAnalyzerInformation->reportErr(msg);
